@@ -234,15 +234,19 @@ class Scenario:
         self.lines.append('cal add_calibration %d %s %d' % (self.c, vlib.hexbytes(name), self.n))
         return self
 
-    def apply_line(self, ci, S_by_f, fvec=None):
-        """measurement of a DUT with full S and the `cal apply` line"""
+    def apply_line(self, ci, S_by_f, fvec=None, idx=None):
+        """measurement of a DUT with full S and the `cal apply` line; with `idx` the device is measured at those calibration
+        points only (the count of device frequencies then differs from the calibration's)"""
         Mf = self.meas(S_by_f)
         fv = fvec or self.fvec
+        if idx is not None:
+            Mf = [Mf[i] for i in idx]
+            fv = [fv[i] for i in idx]
         if self.form == 'm':
-            body = 'm %d %s %s' % (self.nf, ' '.join(vlib.d2h(f) for f in fv), cells(Mf))
+            body = 'm %d %s %s' % (len(fv), ' '.join(vlib.d2h(f) for f in fv), cells(Mf))
         else:
             a, b = ab_split(self.rng, self.typ, Mf, self.cols)
-            body = 'ab %d %s %s %s' % (self.nf, ' '.join(vlib.d2h(f) for f in fv), a, b)
+            body = 'ab %d %s %s %s' % (len(fv), ' '.join(vlib.d2h(f) for f in fv), a, b)
         return 'cal apply %d %d %s' % (self.c, ci, body)
 
     def random_dut(self):
